@@ -35,6 +35,9 @@ structure CAtoms where
   dataTable : Nat → Bool           -- table classifier says Data
   blank : Nat → Bool               -- IsStringAllWhitespace(text data)
   words : Nat → Nat                -- word counter on text data
+  /-- `domutil.IsForeignRawTextElement`: an SVG / MathML element named like one of HTML's raw text
+  elements (the namespace of a node is not part of the model's trees) -/
+  foreignRaw : Nat → Bool := fun _ => false
 
 structure CCfg where
   skipUnlikely : Bool
